@@ -294,10 +294,12 @@ WindowBound == \A p \in DOMAIN gs :
 (* every well-formed code - hence every character of the alphabet - can be generated *)
 AlphabetCovered == GenCodes(cfg.len) = [1..cfg.len -> AlphaSet]
 
-(* reachability witnesses (meant to be violated) *)
-NeverOk      == last.op = "verify" => last.r # "ok"
-NeverLimit   == last.op = "verify" => last.r # "limit"
-NeverRefused == last.op = "send"   => last.r # "refused"
+(* reachability witnesses (meant to be violated).  Action properties, not  *)
+(* invariants: `last` is outside the VIEW, and a refused send or a failed  *)
+(* verification may leave the viewed state unchanged.                      *)
+NeverOk      == [][last'.op = "verify" => last'.r # "ok"]_allvars
+NeverLimit   == [][last'.op = "verify" => last'.r # "limit"]_allvars
+NeverRefused == [][last'.op = "send"   => last'.r # "refused"]_allvars
 
 View == vars
 =============================================================================
